@@ -16,7 +16,8 @@
 EXTENDS Integers, FiniteSets, Sequences
 CONSTANTS MinBackoff,    \* ms: no retransmission earlier than this after the previous transmission
           MaxTx,         \* transmissions of one message (first one included) before giving up
-          MaxSendMs      \* a send call returns within this time
+          MaxSendMs,     \* a send call returns within this time
+          Judge          \* "C09": the reliability rules; "C15": only the nonce rules (counters, identical retransmissions, identifiers)
 
 Nodes == {"A", "B"}
 Peer(n) == IF n = "A" THEN "B" ELSE "A"
@@ -30,7 +31,9 @@ Fresh == [sent |-> [n \in Nodes |-> <<>>],        \* ids submitted, in order
 
 TxOf(st, n, c) == {x \in st.tx : x.n = n /\ x.ctr = c}
 
-AppSendOk(n, id, t, st) == st.pending[n].id = 0
+C09 == Judge = "C09"
+C15 == Judge = "C15"
+AppSendOk(n, id, t, st) == C09 => st.pending[n].id = 0
 AfterAppSend(n, id, t, st) == [st EXCEPT !.sent[n] = Append(@, id), !.pending[n] = [id |-> id, t |-> t]]
 
 \* C15: new messages carry strictly increasing counters; a retransmission is bit-identical.  Datagrams handed to the
@@ -39,8 +42,9 @@ AfterAppSend(n, id, t, st) == [st EXCEPT !.sent[n] = Append(@, id), !.pending[n]
 HiBefore(st, n, t) == IF t > st.hi[n].t THEN (IF st.hi[n].cur > st.hi[n].prev THEN st.hi[n].cur ELSE st.hi[n].prev) ELSE st.hi[n].prev
 \* C09: retransmissions respect the back-off and the transmission budget
 TxOk(n, c, rel, a, id, b, t, st) ==
-  IF TxOf(st, n, c) = {} THEN c > HiBefore(st, n, t)
-  ELSE \A x \in TxOf(st, n, c) : x.bytes = b /\ x.rel /\ t - x.last >= MinBackoff /\ x.cnt < MaxTx
+  IF TxOf(st, n, c) = {} THEN (C15 => c > HiBefore(st, n, t))
+  ELSE \A x \in TxOf(st, n, c) : /\ (C15 => x.bytes = b)
+                                  /\ (C09 => (x.rel /\ t - x.last >= MinBackoff /\ x.cnt < MaxTx))
 AfterTx(n, c, rel, a, id, b, t, st) ==
   [st EXCEPT !.tx = IF TxOf(st, n, c) = {} THEN @ \cup {[n |-> n, ctr |-> c, rel |-> rel, ack |-> a, id |-> id, bytes |-> b, cnt |-> 1, last |-> t]}
                     ELSE {IF x.n = n /\ x.ctr = c THEN [x EXCEPT !.cnt = @ + 1, !.last = t] ELSE x : x \in @},
@@ -61,11 +65,11 @@ CtrOf(st, n, id) == {x.ctr : x \in {y \in st.tx : y.n = n /\ y.id = id}}
 AckDelivered(st, n, c) == \E x \in st.tx : x.n = Peer(n) /\ x.ack = c /\ Delivered(st, Peer(n), x.ctr)
 
 \* SuccessIsTrue: Ok only if the peer's stack actually got the message
-SendOkOk(n, id, t, st) == /\ st.pending[n].id = id
-                          /\ \E c \in CtrOf(st, n, id) : Delivered(st, n, c)
+SendOkOk(n, id, t, st) == C09 => /\ st.pending[n].id = id
+                                 /\ \E c \in CtrOf(st, n, id) : Delivered(st, n, c)
 AfterSendOk(n, id, t, st) == [st EXCEPT !.pending[n] = [id |-> 0, t |-> 0]]
 \* failure is a transmit timeout, within the budget's horizon, and never when both a transmission and an ack got through
-SendErrOk(n, id, code, t, st) ==
+SendErrOk(n, id, code, t, st) == C09 =>
   /\ st.pending[n].id = id /\ code = "TxTimeout"
   /\ t - st.pending[n].t <= MaxSendMs
   /\ ~\E c \in CtrOf(st, n, id) : Delivered(st, n, c) /\ AckDelivered(st, n, c)
@@ -73,15 +77,15 @@ AfterSendErr(n, id, code, t, st) == [st EXCEPT !.pending[n] = [id |-> 0, t |-> 0
 
 \* AtMostOnceInOrder: only something the peer sent and that was delivered, never twice, in sending order
 Index(seq, x) == CHOOSE i \in 1..Len(seq) : seq[i] = x
-AppRecvOk(n, id, t, st) ==
+AppRecvOk(n, id, t, st) == C09 =>
   /\ \E i \in 1..Len(st.sent[Peer(n)]) : st.sent[Peer(n)][i] = id
   /\ \E c \in CtrOf(st, Peer(n), id) : Delivered(st, Peer(n), c)
   /\ \A j \in 1..Len(st.recvd[n]) : Index(st.sent[Peer(n)], st.recvd[n][j]) < Index(st.sent[Peer(n)], id)
 AfterAppRecv(n, id, t, st) == [st EXCEPT !.recvd[n] = Append(@, id)]
 
 \* C15: a freshly chosen session / exchange identifier is not the identifier of a live session / exchange
-AllocOk(v, live) == \A k \in 1..Len(live) : live[k] # v
+AllocOk(v, live) == C15 => \A k \in 1..Len(live) : live[k] # v
 
 \* at the end: every send call returned, every duplicate that asked for it was acknowledged again
-EndOk(st) == (\A n \in Nodes : st.pending[n].id = 0) /\ st.owe = {}
+EndOk(st) == C09 => (\A n \in Nodes : st.pending[n].id = 0) /\ st.owe = {}
 =============================================================================
